@@ -65,7 +65,7 @@ def encode_expr(src, ctx):
         out = out.replace('"', e['"'])
     if ctx == "sq":
         out = out.replace("'", e["'"])
-    return out.replace("\0", e["&"])
+    return out.replace("\0", e["&"]).replace("\2", "&")
 
 
 @st.composite
